@@ -165,6 +165,7 @@ struct Ctx {
   std::vector<TaskCore*> liveTasks, parked;
   std::map<int, TaskCore*> taskOfKey;
   std::vector<TaskCore*> awaitingAcceptance;   // complete() called, engine has not yet reported IsComplete
+  std::vector<std::pair<int, std::vector<int>>> acceptedLeaves;   // (key, discovered leaves) of every completion accepted in this build
   bool cycleReported = false; std::vector<int> cycleKeys;
   std::vector<std::string> errors;
   std::vector<BuildTrace> traces;
@@ -199,6 +200,7 @@ struct Ctx {
     size_t n = prog->keys.size();
     createdThisBuild.assign(n, 0); scanningSeen.assign(n, 0); upToDateSeen.assign(n, 0); completeSeen.assign(n, 0);
     validAnswer.assign(n, -1); reasonSeen.assign(n, -1); reasonInput.assign(n, -1);
+    acceptedLeaves.clear();
     cycleReported = false; cycleKeys.clear(); errors.clear(); step = 0; cancelIssued = false; cancelIssuedAtStep = -1; cancelObserved = false; cancelIssuedAtomic = false;
   }
   void engineRestartedOnDB() {   // a new engine sees only what the database holds
@@ -216,7 +218,8 @@ struct Ctx {
   std::string kdesc(int k) const { return "#" + std::to_string(k); }
 
   void event(const char* what) {   // every observable event is a step; cancellation is placed on steps
-    (void)what;
+    static const bool trace = getenv("EM_TRACE") != nullptr;
+    if (trace) fprintf(stderr, "  [b%llu s%ld] %s\n", (unsigned long long)buildNo, step, what);
     ++gEvents;
     long s = step++;
     if (cancelAtStep >= 0 && s == cancelAtStep && !cancelIssued && cancelFn) { cancelIssued = true; cancelIssuedAtStep = s; cancelFn(); }
@@ -292,6 +295,7 @@ struct Ctx {
     s.deps = t->issued;
     for (int lf : t->comp.leaves) s.deps.push_back({lf, false, false});
     s.interrupted = false; s.hasInterruptedValue = false;
+    acceptedLeaves.push_back({k, t->comp.leaves});
   }
   void onNeedsToRun(int k, int reason, int inputKey) {
   std::unique_lock<std::recursive_mutex> _g(big, std::defer_lock); if (sched == Sched::S2Threads) _g.lock(); reap();
@@ -572,6 +576,13 @@ inline void Ctx::endBuild(const std::string& result) {
   tr.cancelled = cancelled; tr.result = result;
   tr.success = !cycleReported && !cancelled && errors.empty();
   if (!monitorsOn) return;
+  if (!tr.success) {
+    // A rule accepted in a build that then failed or was cancelled, whose discovered dependency was never brought up to date in that
+    // build, was computed from a state the engine has not recorded: its execution counts as interrupted (it may be re-run).
+    for (auto& al : acceptedLeaves)
+      for (int lf : al.second)
+        if (!upToDateSeen[lf] && !completeSeen[lf]) { shadow[al.first].interrupted = true; ++nInterrupted; }
+  }
   if (cancelObserved && !result.empty()) viol("M-cancel: build returned a non-empty value although the engine had observed the cancellation", kdesc(target));
   if (!liveTasks.empty()) viol("M-cancel: tasks still alive after build() returned", "live=" + std::to_string(liveTasks.size()));
   if (tr.success) {
